@@ -114,6 +114,12 @@ def lookupG (Gs : List SEnv) (Gg : Env) : Env := fun n =>
     | some t => some t
     | none => Gg n
 
+/-- the scope a for statement opens around its body: the loop variable, if there is one -/
+def loopScope (lv : Option Str) (t : Ty) : SEnv :=
+  match lv with
+  | some n => [(n, t)]
+  | none => []
+
 mutual
 /-- statement typing: `STyped Gg ρ Gs s Gs'` — under the block scopes `Gs` (innermost first) and the
 globals `Gg`, in a function with result type `ρ`, statement `s` is well-typed and leaves the scopes
@@ -140,6 +146,28 @@ inductive STyped (Gg : Env) (ρ : Option Ty) : List SEnv → Stmt F → List SEn
       (∀ b, els = some b → BTyped Gg ρ ([] :: Gs) b) → STyped Gg ρ Gs (.ifS conds els) Gs
   | whileS (Gs : List SEnv) (c : Expr F) (body : List (Stmt F)) : Typed (lookupG Gs Gg) c .bool →
       BTyped Gg ρ ([] :: Gs) body → STyped Gg ρ Gs (.whileS c body) Gs
+  /-- `for x := range start stop step`: x is a num, in a scope of its own around the body's scope -/
+  | forStep (Gs : List SEnv) (lv : Option Str) (lvTy : Ty) (start : Option (Expr F)) (stop : Expr F) (step : Option (Expr F))
+      (body : List (Stmt F)) : (∀ n, lv = some n → n ≠ underscore) →
+      (∀ x, start = some x → Typed (lookupG Gs Gg) x .num) → Typed (lookupG Gs Gg) stop .num →
+      (∀ x, step = some x → Typed (lookupG Gs Gg) x .num) →
+      BTyped Gg ρ ([] :: loopScope lv .num :: Gs) body →
+      STyped Gg ρ Gs (.forS lv lvTy (.step start stop step) body) Gs
+  /-- `for x := range array`: x has the element type -/
+  | forArr (Gs : List SEnv) (lv : Option Str) (e : Expr F) (s : Ty) (body : List (Stmt F)) :
+      (∀ n, lv = some n → n ≠ underscore) → Typed (lookupG Gs Gg) e (.arr s) →
+      BTyped Gg ρ ([] :: loopScope lv s :: Gs) body →
+      STyped Gg ρ Gs (.forS lv s (.over e) body) Gs
+  /-- `for x := range string`: x is a string (one code point) -/
+  | forStr (Gs : List SEnv) (lv : Option Str) (lvTy : Ty) (e : Expr F) (body : List (Stmt F)) :
+      (∀ n, lv = some n → n ≠ underscore) → Typed (lookupG Gs Gg) e .str →
+      BTyped Gg ρ ([] :: loopScope lv .str :: Gs) body →
+      STyped Gg ρ Gs (.forS lv lvTy (.over e) body) Gs
+  /-- `for x := range map`: x is a string (a key) -/
+  | forMap (Gs : List SEnv) (lv : Option Str) (lvTy : Ty) (e : Expr F) (s : Ty) (body : List (Stmt F)) :
+      (∀ n, lv = some n → n ≠ underscore) → Typed (lookupG Gs Gg) e (.map s) →
+      BTyped Gg ρ ([] :: loopScope lv .str :: Gs) body →
+      STyped Gg ρ Gs (.forS lv lvTy (.over e) body) Gs
   /-- `print` takes any number of arguments of any type -/
   | print (Gs : List SEnv) (args : List (Expr F)) : (∀ a ∈ args, ∃ t, Typed (lookupG Gs Gg) a t) →
       STyped Gg ρ Gs (.callS (.call (lit "print") args)) Gs
